@@ -147,7 +147,7 @@ func renderReportFull(rep *report.Report) string {
 	if pv != nil {
 		return fmt.Sprintf("<renderer panicked: %v>", pv)
 	}
-	return s
+	return maskAddrs(s)
 }
 
 // sortKeyOf is the tuple Canonicalize sorts on, as far as it is observable
@@ -188,6 +188,50 @@ func classifySeqDiff(a, b []diagSnap) string {
 	default:
 		return "DIFFERENT diagnostics"
 	}
+}
+
+// involving names (normalised) the message of the first diagnostic that one
+// sequence has and the other lacks, or — for pure reorderings — of the first
+// position that differs.
+func involving(a, b []diagSnap) string {
+	ka, kb := snapKeys(a), snapKeys(b)
+	cnt := map[string]int{}
+	for _, k := range kb {
+		cnt[k]++
+	}
+	for i, k := range ka {
+		if cnt[k] > 0 {
+			cnt[k]--
+		} else {
+			return "; involving: " + normMsg(a[i].Message)
+		}
+	}
+	cnt = map[string]int{}
+	for _, k := range ka {
+		cnt[k]++
+	}
+	for i, k := range kb {
+		if cnt[k] > 0 {
+			cnt[k]--
+		} else {
+			return "; involving: " + normMsg(b[i].Message)
+		}
+	}
+	for i := range ka {
+		if i < len(kb) && ka[i] != kb[i] {
+			return "; involving: " + normMsg(a[i].Message)
+		}
+	}
+	return ""
+}
+
+func hasMessage(ss []diagSnap, prefix string) bool {
+	for _, s := range ss {
+		if strings.HasPrefix(s.Message, prefix) {
+			return true
+		}
+	}
+	return false
 }
 
 func firstDiff(a, b []diagSnap) map[string]any {
@@ -251,7 +295,12 @@ func c36Runs(r *vlib.Run) {
 				case o.Panic != base.Panic || o.Fatal != base.Fatal:
 					what = "fatal/panic outcome differs"
 				case strings.Join(snapKeys(o.Snaps), "\n") != strings.Join(snapKeys(base.Snaps), "\n"):
-					what = classifySeqDiff(base.Snaps, o.Snaps)
+					what = classifySeqDiff(base.Snaps, o.Snaps) + involving(base.Snaps, o.Snaps)
+					if hasMessage(base.Snaps, "detected cyclic import") || hasMessage(o.Snaps, "detected cyclic import") {
+						// input class: which member of an import cycle reports the cycle (and
+						// what follows from it) is what varies; name the class, not the victim
+						what = "[workspace has an import cycle] " + classifySeqDiff(base.Snaps, o.Snaps)
+					}
 				case o.Rendered != base.Rendered:
 					what = "accessors equal but RENDERED text differs"
 				default:
